@@ -19,8 +19,9 @@ CONSTANTS
   MAXOPS = %(maxops)d
   SolidSizes = %(solid)s
   ChunkSizes = %(chunks)s
-  Fix = "clear"
+  Fix = "probe"
   SeekKinds = %(seek)s
+  PastEndKinds = %(pastend)s
   KeepHist = %(hist)s
   TolerateNonSeekable = TRUE
 INVARIANTS ResultsAgree PositionAgrees IsEndAgrees WellFormed %(export)s
@@ -36,7 +37,7 @@ def leg_binstream(chk, tier):
     for c in confs:
         cfg = write_cfg("mc_bsr_%d.cfg" % c["chunk"], MC_CFG % dict(
             c, solid="{1, 2, 3, %d, %d}" % (c["chunk"], c["chunk"] + 1), chunks="{1, 3, %d}" % (c["chunk"] + 2),
-            seek="{TRUE, FALSE}", hist="FALSE", export=""))
+            seek="{TRUE, FALSE}", pastend="{TRUE, FALSE}", hist="FALSE", export=""))
         r = tlc("MC_BinStreamReader", cfg=cfg, coverage=True, timeout=1500)
         chk.add_tlc("MC_BinStreamReader M=>A", r, c)
         zero = [a for a in r.coverage_zero_actions() if a.startswith("Do")]
@@ -48,13 +49,13 @@ def leg_binstream(chk, tier):
     for chunk, maxlen, maxops in gens:
         cfg = write_cfg("gen_bsr_%d.cfg" % chunk, MC_CFG % dict(
             chunk=chunk, maxlen=maxlen, maxops=maxops, solid="{1, 2, %d, %d}" % (chunk, chunk + 1),
-            chunks="{1, %d}" % (chunk + 2), seek="{TRUE}", hist="TRUE", export="Export"))
+            chunks="{1, %d}" % (chunk + 2), seek="{TRUE}", pastend="{FALSE}", hist="TRUE", export="Export"))
         r = tlc("MC_BinStreamReader", cfg=cfg, timeout=1500, xmx="8g")
         chk.add_tlc("Gen_BinStreamReader path mode", r, dict(chunk=chunk, maxlen=maxlen, maxops=maxops))
         scen = r.printed("GEN")
         exe = build("bsr_c%d" % chunk, ["bsr_harness.cpp"], groups=("common",),
                     defines=["BITSERIALIZER_VERIF_CHUNK_SIZE=%d" % chunk])
-        kinds = ["sstream", "short1", "short3", "nonseek"]
+        kinds = ["sstream", "short1", "short3", "nonseek", "file"]
         rows = []
         for i, s in enumerate(scen):
             for k in kinds:
@@ -74,7 +75,7 @@ def leg_binstream(chk, tier):
     rl = [l for l in out.splitlines() if l.strip()]
     lines += rl
     chk.add_cases(len(rl), distinct_keys=(("bsr-rand", hash(l)) for l in rl))
-    cfg = write_cfg("trace_bsr.cfg", 'INIT Init\nNEXT Next\nCONSTANT Fix = "clear"\n')
+    cfg = write_cfg("trace_bsr.cfg", 'INIT Init\nNEXT Next\nCONSTANT Fix = "probe"\n')
     checked, bad = vlib.validate_traces("Trace_BinStreamReader", lines, cfg=cfg)
     chk.add_cases(0, validated=checked)
     byid = None
@@ -97,10 +98,10 @@ def leg_msgpack_docs(chk, tier):
     sc = mp.gen("MC_LoadScript", {"Mode": '"typed"', "MaxOps": 1 if quick else 3, "Widths": "{0, 4}" if quick else "{0, 2, 4, 5}", "Pads": "{0}",
                                   "TypedTargets": '{"i32", "str", "f32", "vec_u8", "tp_ns", "objscope", "null"}' if quick else "{}"},
                 ["Export"], "c10-typed", chk, timeout=3000, xmx="8g")
-    pairs = mp.replay(sc, mp.MEDIA_SEEKABLE + ["nonseek"], 8, "d8")
+    pairs = mp.replay(sc, mp.MEDIA_SEEKABLE + ["nonseek", "file"], 8, "d8")
     sf = mp.gen("MC_LoadScript", {"Mode": '"fields"', "MaxOps": 1, "Widths": "{0}", "Pads": mp.tla_set([248, 251, 254] if quick else range(240, 262))},
                 ["Export"], "c10-fields256", chk, timeout=3000, xmx="8g")
-    pairs += mp.replay(sf, ["mem", "sstream", "short64", "nonseek"], 256, "d256")
+    pairs += mp.replay(sf, ["mem", "sstream", "short64", "nonseek", "file"], 256, "d256")
     # the property is an equivalence: every stream run must give the outcome of the memory run on the same bytes
     # (same exception category, and when both complete the same events); absolute correctness is decided by C07
     by = {}
